@@ -2,10 +2,12 @@
    case:  ("D4"/"P4" = the same on the FIX44 schema)
           "D <fnum> <v>..."          direct RealmBase::get_rlm_idx / is_valid on the realm of a schema field
           "P <fnum> <v>..."          the printer path (create_field, virtual get_rlm_idx, print_field, print)
-          "S <r|s> <c|i|d|s> <n> <m1>..<mn> <v>..."   a synthetic realm built from the case
+          "S <r|s> <c|i|d|s> <n> <m1>..<mn> <v>..."   a synthetic realm built from the case; also through typed field
+                                     objects Field<T,7777>(v, &realm) and Field<T,7778>(v) (no realm)
    impl:  "K=<s|r> T=<c|b|i|d|s> N=<name> M=<m,..> D=<hexdesc,..> R=<res,..>"   (D, P: realm dump first)
           "R=<res,..>"                                                          (S)
-          res = idx:valid (D, S) | idx:hextail1:hextail2 (P)
+          res = idx:valid (D) | idx:valid:fieldidx:fieldvalid:bareidx:barevalid (S)
+         | idx:fieldvalid:hextail1:hextail2 (P; fieldvalid "-" for Boolean fields; K=n for a field without a realm)
    values: c/b/i/d decimal integers (d = order-preserving key of the double), s hex ("-" = empty). *)
 let csv s = if s = "" then [] else split_on ',' s
 let zs_of_hexstr h = zlist_of_hex h            (* string as list of byte values 0..255 *)
@@ -20,25 +22,38 @@ let strip_opt = function Some x -> x | None -> failwith "MODEL-ERROR"
 let raw_of_hex h = string_of_bytes (bytes_of_hex h)
 
 (* run one realm of element type 'a.  Returns (model R list orig, model R list fixed, oracle impl, oracle model orig, oracle model fixed) *)
-let run_direct (lt : 'a -> 'a -> bool) (k : rkind) (mem : 'a list) (probes : 'a list) (impl_r : string list) (need_sorted : bool) =
+let run_direct (lt : 'a -> 'a -> bool) (k : rkind) (mem : 'a list) (probes : 'a list) (impl_r : string list) (need_sorted : bool) (with_field : bool) =
   let sorted = (k = Dt_range) || sortedb lt mem in
+  let rlm = Some (k, mem) in
+  (* (realm idx, realm valid, field idx, field valid, bare-field idx, bare-field valid) *)
   let one fixed v =
     let idx = strip_opt (get_rlm_idx_gen lt fixed k mem v) in
     let valid = strip_opt (is_valid lt k mem v) in
-    (idx, valid) in
-  let ok v (idx, valid) = (not sorted && not need_sorted) || (c10_valid_ok lt k mem v valid && c10_idx_ok lt mem v idx) in
-  let fmt (idx, valid) = idx_str idx ^ ":" ^ b01 valid in
+    if with_field then
+      (idx, valid, strip_opt (field_get_rlm_idx_gen lt fixed rlm v), strip_opt (field_is_valid lt rlm v),
+       strip_opt (field_get_rlm_idx_gen lt fixed None v), strip_opt (field_is_valid lt None v))
+    else (idx, valid, idx, valid, None, true) in
+  let ok v (idx, valid, fidx, fvalid, nidx, nvalid) =
+    (c10_field_idx_ok lt None v nidx && c10_field_valid_ok lt None v nvalid) &&
+    ((not sorted && not need_sorted) ||
+     (c10_valid_ok lt k mem v valid && c10_idx_ok lt mem v idx &&
+      c10_field_valid_ok lt rlm v fvalid && c10_field_idx_ok lt rlm v fidx)) in
+  let fmt (idx, valid, fidx, fvalid, nidx, nvalid) =
+    idx_str idx ^ ":" ^ b01 valid ^
+    (if with_field then ":" ^ idx_str fidx ^ ":" ^ b01 fvalid ^ ":" ^ idx_str nidx ^ ":" ^ b01 nvalid else "") in
   let mo = List.map (one false) probes and mf = List.map (one true) probes in
   let parse r = match split_on ':' r with
-    | [i; v] -> Some (idx_of_str i, v = "1") | _ -> None in
+    | [i; v] when not with_field -> let i = idx_of_str i and v = (v = "1") in Some (i, v, i, v, None, true)
+    | [i; v; fi; fv; ni; nv] when with_field -> Some (idx_of_str i, v = "1", idx_of_str fi, fv = "1", idx_of_str ni, nv = "1")
+    | _ -> None in
   let oi = List.length impl_r = List.length probes &&
            List.for_all2 (fun v r -> match (try parse r with _ -> None) with Some x -> ok v x | None -> false) probes impl_r in
   (sorted, List.map fmt mo, List.map fmt mf, oi, List.for_all2 ok probes mo, List.for_all2 ok probes mf)
 
-let choose impl_r ro rf om omf =
-  (* the pinned tree is the [fixed = false] model; a tree with the equality test (candidate D8) is
-     recognised by agreeing with the repaired model where the two differ *)
-  if ro <> rf && impl_r = rf then (rf, omf) else (ro, om)
+let choose _impl_r _ro rf _om omf =
+  (* the model of the code is [get_rlm_idx_gen ... true] (equality test after lower_bound, commit 63dae2a);
+     the original routine ([false]) only serves the Coq refutation witness *)
+  (rf, omf)
 
 let valstr ty (v : string) : string =      (* how the field prints its value *)
   match ty with
@@ -56,8 +71,8 @@ let () = run_protocol (fun case impl ->
     let impl_r = (match kv_fields impl with [("R", r)] -> csv r | _ -> []) in
     let k = kind_of kd in
     let (_, ro, rf, oi, om, omf) =
-      if ty = "s" then run_direct str_ltb k (List.map zs_of_hexstr mem) (List.map zs_of_hexstr probes) impl_r false
-      else run_direct Z.ltb k (List.map z_of_string mem) (List.map z_of_string probes) impl_r false in
+      if ty = "s" then run_direct str_ltb k (List.map zs_of_hexstr mem) (List.map zs_of_hexstr probes) impl_r false true
+      else run_direct Z.ltb k (List.map z_of_string mem) (List.map z_of_string probes) impl_r false true in
     let (r, om) = choose impl_r ro rf om omf in
     ("R=" ^ String.concat "," r, oi, om)
   | ("D" | "D4") :: fnum :: probes ->
@@ -68,8 +83,8 @@ let () = run_protocol (fun case impl ->
     let k = kind_of kd in
     let mem = csv m and descs = csv d in
     let (sorted, ro, rf, oi, om, omf) =
-      if ty = "s" then run_direct str_ltb k (List.map zs_of_hexstr mem) (List.map zs_of_hexstr probes) impl_r true
-      else run_direct Z.ltb k (List.map z_of_string mem) (List.map z_of_string probes) impl_r true in
+      if ty = "s" then run_direct str_ltb k (List.map zs_of_hexstr mem) (List.map zs_of_hexstr probes) impl_r true false
+      else run_direct Z.ltb k (List.map z_of_string mem) (List.map z_of_string probes) impl_r true false in
     let (r, om) = choose impl_r ro rf om omf in
     let wf = sorted && List.length descs = List.length mem in
     ((if wf then "" else "ILL-FORMED-REALM ") ^
@@ -79,30 +94,40 @@ let () = run_protocol (fun case impl ->
     let get k = try List.assoc k f with Not_found -> failwith "NO-DUMP" in
     let kd = get "K" and ty = get "T" and nm = get "N" and m = get "M" and d = get "D" in
     let impl_r = csv (get "R") in
-    let k = kind_of kd in
+    let norealm = (kd = "n") in
+    let k = if norealm then Dt_set else kind_of kd in
     let mem = csv m and descs = List.map raw_of_hex (csv d) in
-    (* per probe: the value the field holds, the model's index and description *)
+    (* per probe: the value the field holds, the model's index, validity and description *)
     let eff v = if ty = "b" then string_of_z (boolean_field_char (z_of_string v)) else v in
     let run (type a) (lt : a -> a -> bool) (conv : string -> a) =
       let mem' = List.map conv mem in
-      let sorted = (k = Dt_range) || sortedb lt mem' in
+      let sorted = norealm || (k = Dt_range) || sortedb lt mem' in
+      let rlm = if norealm then None else Some (k, mem') in
       let one fixed v =
         let x = conv (eff v) in
-        let idx = strip_opt (get_rlm_idx_gen lt fixed k mem' x) in
-        let desc = strip_opt (describe_gen lt fixed k mem' descs x) in
-        (idx, desc) in
+        let idx = strip_opt (field_get_rlm_idx_gen lt fixed rlm x) in
+        let desc = strip_opt (field_describe_gen lt fixed rlm descs x) in
+        (* Field<Boolean, N> has no is_valid() *)
+        let valid = if ty = "b" then None else Some (strip_opt (field_is_valid lt rlm x)) in
+        (idx, valid, desc) in
       let tail v desc = let vs = valstr ty v in
         match desc with Some ds -> ds ^ " (" ^ vs ^ ")" | None -> vs in
-      let fmt v (idx, desc) = let t = hex_of_bytes (bytes_of_string (tail v desc)) in idx_str idx ^ ":" ^ t ^ ":" ^ t in
-      let ok v (idx, desc) = c10_idx_ok lt mem' (conv (eff v)) idx && c10_desc_ok lt (fun a b -> a = b) mem' descs (conv (eff v)) desc in
+      let vstr = function None -> "-" | Some b -> b01 b in
+      let fmt v (idx, valid, desc) = let t = hex_of_bytes (bytes_of_string (tail v desc)) in
+        idx_str idx ^ ":" ^ vstr valid ^ ":" ^ t ^ ":" ^ t in
+      let ok v (idx, valid, desc) =
+        let x = conv (eff v) in
+        c10_field_idx_ok lt rlm x idx && c10_field_desc_ok lt (fun a b -> a = b) rlm descs x desc &&
+        (match valid with None -> ty = "b" | Some b -> ty <> "b" && c10_field_valid_ok lt rlm x b) in
       (* read the description back from what the implementation printed *)
       let parse v r = match split_on ':' r with
-        | [i; t1; t2] when t1 = t2 ->
+        | [i; fv; t1; t2] when t1 = t2 ->
           let t = raw_of_hex t1 and vs = valstr ty v in
           let suffix = " (" ^ vs ^ ")" in
           let lt_, ls = String.length t, String.length suffix in
-          if t = vs then Some (idx_of_str i, None)
-          else if lt_ >= ls && String.sub t (lt_ - ls) ls = suffix then Some (idx_of_str i, Some (String.sub t 0 (lt_ - ls)))
+          let valid = (match fv with "-" -> None | "1" -> Some true | "0" -> Some false | _ -> failwith "valid") in
+          if t = vs then Some (idx_of_str i, valid, None)
+          else if lt_ >= ls && String.sub t (lt_ - ls) ls = suffix then Some (idx_of_str i, valid, Some (String.sub t 0 (lt_ - ls)))
           else None
         | _ -> None in
       let mo = List.map (one false) probes and mf = List.map (one true) probes in
